@@ -29,8 +29,8 @@ type Machine struct {
 	Program                    program.Program
 	Vars                       map[string]machine.Value
 	UnresolvedResources        []program.Resource
-	Resources                  []machine.Value // Constants and Variables
-	UnresolvedResourceBalances map[string]int
+	Resources                  []machine.Value  // Constants and Variables
+	UnresolvedResourceBalances map[string][]int // account address -> indexes of the balance() resources on it
 	resolveCalled              bool
 	Balances                   map[machine.AccountAddress]map[machine.Asset]*machine.MonetaryInt // keeps track of balances throughout execution
 	Stack                      []machine.Value
@@ -63,7 +63,7 @@ func NewMachine(p program.Program) *Machine {
 		Postings:                   make([]Posting, 0),
 		TxMeta:                     map[string]machine.Value{},
 		AccountsMeta:               map[machine.AccountAddress]map[string]machine.Value{},
-		UnresolvedResourceBalances: map[string]int{},
+		UnresolvedResourceBalances: map[string][]int{},
 	}
 
 	return &m
@@ -493,17 +493,19 @@ func (m *Machine) Execute() error {
 func (m *Machine) ResolveBalances(ctx context.Context, store Store) error {
 
 	// map account/asset/resourceIndex
-	assignBalanceAsResource := map[string]map[string]int{}
+	assignBalanceAsResource := map[string]map[string][]int{}
 
 	balancesQuery := BalanceQuery{}
-	for address, resourceIndex := range m.UnresolvedResourceBalances {
-		monetary := m.Resources[resourceIndex].(machine.Monetary)
-		balancesQuery[address] = append(balancesQuery[address], string(monetary.Asset))
+	for address, resourceIndexes := range m.UnresolvedResourceBalances {
+		for _, resourceIndex := range resourceIndexes {
+			monetary := m.Resources[resourceIndex].(machine.Monetary)
+			balancesQuery[address] = append(balancesQuery[address], string(monetary.Asset))
 
-		if _, ok := assignBalanceAsResource[address]; !ok {
-			assignBalanceAsResource[address] = map[string]int{}
+			if _, ok := assignBalanceAsResource[address]; !ok {
+				assignBalanceAsResource[address] = map[string][]int{}
+			}
+			assignBalanceAsResource[address][string(monetary.Asset)] = append(assignBalanceAsResource[address][string(monetary.Asset)], resourceIndex)
 		}
-		assignBalanceAsResource[address][string(monetary.Asset)] = resourceIndex
 	}
 
 	m.Balances = make(map[machine.AccountAddress]map[machine.Asset]*machine.MonetaryInt)
@@ -540,17 +542,14 @@ func (m *Machine) ResolveBalances(ctx context.Context, store Store) error {
 
 		for account, forAssets := range balances {
 			for asset, balance := range forAssets {
-				if assignBalanceAsResource[account] != nil {
-					resourceIndex, ok := assignBalanceAsResource[account][asset]
-					if ok {
-						if balance.Cmp(ledger.Zero) < 0 {
-							return machine.NewErrNegativeAmount("tried to request the balance of account %s for asset %s: received %s: monetary amounts must be non-negative",
-								account, asset, balance)
-						}
-						monetary := m.Resources[resourceIndex].(machine.Monetary)
-						monetary.Amount = machine.NewMonetaryIntFromBigInt(balance)
-						m.Resources[resourceIndex] = monetary
+				for _, resourceIndex := range assignBalanceAsResource[account][asset] {
+					if balance.Cmp(ledger.Zero) < 0 {
+						return machine.NewErrNegativeAmount("tried to request the balance of account %s for asset %s: received %s: monetary amounts must be non-negative",
+							account, asset, balance)
 					}
+					monetary := m.Resources[resourceIndex].(machine.Monetary)
+					monetary.Amount = machine.NewMonetaryIntFromBigInt(balance)
+					m.Resources[resourceIndex] = monetary
 				}
 
 				if _, ok := m.Balances[machine.AccountAddress(account)]; !ok {
@@ -615,7 +614,7 @@ func (m *Machine) ResolveResources(ctx context.Context, store Store) error {
 			acc, _ := m.getResource(res.Account)
 			address := string((*acc).(machine.AccountAddress))
 			involvedAccountsMap[machine.Address(idx)] = address
-			m.UnresolvedResourceBalances[address] = idx
+			m.UnresolvedResourceBalances[address] = append(m.UnresolvedResourceBalances[address], idx)
 
 			ass, ok := m.getResource(res.Asset)
 			if !ok {
